@@ -11,6 +11,7 @@ CONSTANTS
   CountMerges = TRUE
   MaxFaults = 1
   MaxCnt = 4
+  HCAhead = FALSE
   Concurrent = FALSE
   MaxLag = 1
 CONSTRAINT StateConstraint
